@@ -170,6 +170,19 @@ def gen_scope_program(r, n_ops):
             ops.append("dict:%d" % i)
     for i in range(n):
         ops.append("dict:%d" % i)
+    if r.random() < 0.3:
+        # ClassNode.clone as the last op: a class scope, functions below it directly or through one or two block
+        # scopes (some sharing a block), sometimes a function that hangs elsewhere
+        cls = r.randrange(n)
+        fns, blocks = [], []
+        for _f in range(r.randrange(1, 4)):
+            par = cls
+            if blocks and r.random() < 0.4:
+                par = r.choice(blocks)
+            for _b in range(r.randrange(0, 3)):
+                ops.append("new:%d:%s" % (par, kw())); par = n; blocks.append(n); n += 1
+            ops.append("new:%s:%s" % (par if r.random() < 0.9 else r.randrange(n), kw())); fns.append(n); n += 1
+        ops.append("cc:%d:%s" % (cls, ",".join(map(str, fns))))
     return ops
 
 
@@ -198,6 +211,52 @@ def real_scope_program(ops):
     finally:
         signal.alarm(0)
         signal.signal(signal.SIGALRM, old)
+
+
+def _real_clone_class(S, cls, fns):
+    """the real ast.ClassNode.clone on a class whose fmtdict is S[cls] and whose functions' fmtdicts are S[f];
+    new scopes are numbered in creation order; result: new ids and, per new function, its parent chain as ids"""
+    from shroud import util, ast
+    flags = dict(wrap_fortran=False, wrap_c=False, wrap_python=False, wrap_lua=False)
+    node = ast.ClassNode.__new__(ast.ClassNode)
+    node.fmtdict = S[cls]
+    node.options = util.Scope(None, **flags)
+    node.scope_file = []
+    node.functions = []
+    for f in fns:
+        fn = ast.FunctionNode.__new__(ast.FunctionNode)
+        fn.fmtdict = S[f]
+        fn.options = util.Scope(node.options)
+        fn.ast = None
+        fn._fmtargs = {}
+        fn._fmtresult = {}
+        node.functions.append(fn)
+    new = node.clone()
+    known = {id(x): i for i, x in enumerate(S)}
+
+    def reg(x):
+        known[id(x)] = len(S)
+        S.append(x)
+        return len(S) - 1
+    ncls = reg(new.fmtdict)
+    nfs = []
+    for fn in new.functions:
+        nfs.append(reg(fn.fmtdict))
+        p = fn.fmtdict.get_parent()
+        steps = 0
+        while p is not None and id(p) not in known and steps < 50:
+            reg(p)
+            p = p.get_parent()
+            steps += 1
+    chains = []
+    for i in nfs:
+        ch, p, steps = [], S[i].get_parent(), 0
+        while p is not None and steps < 12:
+            ch.append(str(known.get(id(p), "?")))
+            p = p.get_parent()
+            steps += 1
+        chains.append(",".join(ch) if ch else "-")
+    return "%d;%s|%s" % (ncls, ",".join(map(str, nfs)), "|".join(chains))
 
 
 def _real_scope_program(ops):
@@ -247,6 +306,8 @@ def _real_scope_program(ops):
                 if isinstance(d.get("k" + f[2]), str):
                     d["k" + f[2]] = int(d["k" + f[2]])
                 out.append("ok")
+            elif f[0] == "cc":
+                out.append(_real_clone_class(S, int(f[1]), [int(x) for x in f[2].split(",")]))
             elif f[0] == "dict":
                 d = S[int(f[1])]._to_dict()
                 out.append(",".join("%s=%d" % (k[1:], v) for k, v in d.items()) if d else "-")
@@ -347,6 +408,10 @@ def tree_to_yaml_decls(items):
                 d["cxx_template"] = [{"instantiation": "<int>"}, {"instantiation": "<double>"}]
             else:
                 d["decl"] = "class " + name
+            if len(it) > 5:
+                for k_, v_ in it[5].items():
+                    if k_ != "template":
+                        d[k_] = v_
         else:
             d["block"] = True
         if it[0] == "fn":
@@ -758,7 +823,13 @@ def lib_doc(r, name="eqv", python=True, simple=False):
     NS = ("ns", "inner", {}, {}, [fn(POOL_FREE) for _ in range(r.randrange(1, 3))] +
           ([("cls", "Zc", {}, {}, [fn(meth)])] if r.random() < 0.5 else []))
     BL = ("block", "Bt", {}, {}, [fn(POOL_FREE) for _ in range(r.randrange(1, 3))])
-    items = [X, Y, NS, BL] + [fn(POOL_FREE) for _ in range(r.randrange(1, 3))]
+    cnt[0] += 3
+    T = ("cls", "Tc", {}, {}, [("fn", "t%d" % cnt[0], {}, {}, "Tc()"),
+                               ("block", "Btc", {}, {}, [("fn", "push%d" % cnt[0], {}, {}, "void {n}(const T &value)"), fn(meth)]),
+                               ("fn", "at%d" % cnt[0], {}, {}, "T {n}(int n)")], {"template": True})
+    G = ("cls", "Gc", {}, {}, [("fn", "g%d" % cnt[0], {}, {}, "Gc()"), ("fn", "h%d" % cnt[0], {}, {}, "Gc(int a)"), fn(meth)],
+         {"cpp_if": "ifdef HAVE_GC"})
+    items = [X, Y, NS, BL, T, G] + [fn(POOL_FREE) for _ in range(r.randrange(1, 3))]
     r.shuffle(items)
     opts = {"debug_testsuite": True, "wrap_python": python, "wrap_lua": False}
     return {"library": name, "cxx_header": name + ".hpp", "options": opts, "format": {}, "tree": items}
@@ -1326,14 +1397,25 @@ def oracle_cli(ctx, orc, scr, r, thorough, defaults_o):
         if lang:
             cmd_all += ["--language", lang]
         common_cmd = ["--option", "debug_testsuite=true"]
+        # (iv) override: the YAML file states OTHER values (and the other language), the command line states these
+        def other(v):
+            return (not v) if isinstance(v, bool) else v + 1 if isinstance(v, int) else v + "_other"
+        o = dict(a, options={k: other(v) for k, v in opts.items()})
+        if lang:
+            o["language"] = "c" if lang == "c++" else "c++"
+            if lang == "c":     # the C++-only declarations cannot be in a file that is then read as C
+                o["language"] = "c++"
         ta, e1 = run_doc_fresh(doc_yaml(a), "cli", scr, "cli%da" % i, common_cmd)
         tb, e2 = run_doc_fresh(doc_yaml(b), "cli", scr, "cli%db" % i, common_cmd + cmd_all)
         tc, e3 = run_doc_fresh(doc_yaml(c), "cli", scr, "cli%dc" % i, common_cmd + cmd_half)
-        ctx.count(2)
-        orc.kinds["cli"] += 2
+        to, e4 = run_doc_fresh(doc_yaml(o), "cli", scr, "cli%do" % i, common_cmd + cmd_all)
+        ctx.count(3)
+        orc.kinds["cli"] += 3
+        if lang:
+            dist["language_override_" + lang] += 1
         if e1:
             dist["yaml_run_rejected"] += 1
-        for other, eo, cmd, lbl in ((tb, e2, cmd_all, "all"), (tc, e3, cmd_half, "split")):
+        for other, eo, cmd, lbl in ((tb, e2, cmd_all, "all"), (tc, e3, cmd_half, "split"), (to, e4, cmd_all, "override")):
             key = "cli:%s:%s" % (lbl, "+".join(names))
             if e1 or eo:
                 # both must stop, and for the same reason (last line of the message)
@@ -1341,12 +1423,12 @@ def oracle_cli(ctx, orc, scr, r, thorough, defaults_o):
                 l2 = (eo or "").strip().split("\n")[-1][-120:]
                 if bool(e1) != bool(eo) or l1 != l2:
                     ctx.fail(key, "YAML fields vs command line: runs end differently (%s / %s)" % (l1 or "ok", l2 or "ok"),
-                             {"kind": "cli", "first": doc_yaml(a), "second": doc_yaml(b if lbl == "all" else c), "cmdline": cmd})
+                             {"kind": "cli", "first": doc_yaml(a), "second": doc_yaml({"all": b, "split": c, "override": o}[lbl]), "cmdline": cmd})
                 continue
             diff = first_diff(ta, other, skip_json=False)
             if diff:
                 ctx.fail(key, "YAML fields %s vs --option/--language differ in %s (%s)" % (opts, diff[0], diff[1]),
-                         {"kind": "cli", "first": doc_yaml(a), "second": doc_yaml(b if lbl == "all" else c),
+                         {"kind": "cli", "first": doc_yaml(a), "second": doc_yaml({"all": b, "split": c, "override": o}[lbl]),
                           "cmdline": cmd, "file": diff[0]})
             else:
                 ctx.nontrivial("cli:%d:%s" % (i, lbl))
@@ -1693,14 +1775,25 @@ def oracle_pairs(ctx, scr, thorough, fs_options, fs_formats, defaults_o, default
                                  "option %s=True on %s (library: off) vs on each contained function" % (wl, it[0]),
                                  a, b, base_tree=off_tree)
         # ---- empty block inserted around a run of declarations (JSON compared too: no node records a block)
-        for _ in range(4 if thorough else 2):
-            conts2 = [((), None)] + [(p, it) for p, it in conts]
-            p, _it = r.choice(conts2)
+        conts2 = [((), None)] + [(p, it) for p, it in conts]
+        by_kind = collections.OrderedDict()
+        for p_, it_ in conts2:
+            kd = "library" if it_ is None else ("cls-template" if it_[0] == "cls" and len(it_) > 5 and it_[5].get("template")
+                                                else "cls-cpp_if" if it_[0] == "cls" and len(it_) > 5 and it_[5].get("cpp_if")
+                                                else it_[0])
+            by_kind.setdefault(kd, []).append((p_, it_))
+        targets = [(kd, r.choice(v)) for kd, v in by_kind.items()]
+        if not thorough and li < 2:
+            targets = targets[:2]
+        targets += [("random", r.choice(conts2)) for _ in range(3 if thorough else 0)]
+        for kd, (p, _it) in targets:
+            stats["empty_block_in_" + kd] += 1
 
             def wrap(items, path=()):
                 if path == p:
-                    i = r.randrange(0, len(items))
-                    j = r.randrange(i, len(items)) + 1
+                    # around everything, or around a random run of declarations
+                    i = 0 if r.random() < 0.5 else r.randrange(0, len(items))
+                    j = len(items) if i == 0 and r.random() < 0.7 else r.randrange(i, len(items)) + 1
                     return items[:i] + [("block", "Be", {}, {}, items[i:j])] + items[j:]
                 out = []
                 for idx, it in enumerate(items):
@@ -1710,7 +1803,7 @@ def oracle_pairs(ctx, scr, thorough, fs_options, fs_formats, defaults_o, default
                 return out
             b = copy.deepcopy(doc)
             b["tree"] = wrap(doc["tree"])
-            orc.compare_docs("empty-block", "empty-block", "empty block inserted", doc, b, skip_json=False)
+            orc.compare_docs("empty-block", "empty-block:" + kd, "empty block inserted in a %s" % kd, doc, b, skip_json=False)
 
     ctx.note("oracle_tree_distribution", dict(stats))
     ctx.note("wrap_placement_distribution", dict(wrap_dist))
@@ -2122,6 +2215,20 @@ def _run(ctx, thorough, ok, drv, scr):
     dist = collections.Counter(tags)
     ctx.note("correspondence_cases", dict(dist))
     ctx.note("tie_tree_distribution", dict(tie_stats))
+    ccd = collections.Counter()
+    for q, a, t in zip(reqs, impl, tags):
+        if t == "sc" and " cc:" in q:
+            ccd["clone_class_programs"] += 1
+            last = a.split(" ")[-1]
+            if "|" in last:
+                head, chains = last.split("|", 1)
+                ncls = head.split(";")[0]
+                for ch in chains.split("|"):
+                    ids = ch.split(",")
+                    ccd["function_under_cloned_block" if ids[0] != ncls else "function_directly_under_class"] += 1
+                    if len(ids) >= 3 and ids[0] != ncls and ids[1] != ncls:
+                        ccd["through_two_cloned_blocks"] += 1
+    ctx.note("clone_class_distribution", dict(ccd))
     ctx.note("disagreements", len(disagreements))
     ctx.note("scope_program_results", {"recursion": sum(1 for a, t in zip(impl, tags) if t == "sc" and " R" in a),
                                        "attr_errors": sum(1 for a, t in zip(impl, tags) if t == "at" and a == "error"),
